@@ -974,6 +974,8 @@ func (p *Policy) setWhitelistFeeContract(ic *interop.Context, args []stackitem.I
 	i, ok := slices.BinarySearchFunc(cache.whitelistedContracts, c, whitelistedContract.Compare)
 	if !ok {
 		cache.whitelistedContracts = slices.Insert(cache.whitelistedContracts, i, c)
+	} else {
+		cache.whitelistedContracts[i] = c // an existing entry gets the new fee (storage was updated above)
 	}
 
 	err = ic.AddNotification(p.Hash, "WhitelistFeeChanged", stackitem.NewArray([]stackitem.Item{
